@@ -525,6 +525,13 @@ class VerifyAttrs(object):
             node._gen_fortran_generic = True
 
         if arg.is_function_pointer():
+            if arg.params is None:
+                # int (*arg)[10]
+                raise RuntimeError(
+                    "line {}: pointer to array arguments are not supported: {}".format(
+                        getattr(node, "linenumber", "?"), arg.gen_decl()
+                    )
+                )
             for arg1 in arg.params:
                 self.check_arg_attrs(None, arg1, options)
 
